@@ -84,7 +84,9 @@ TrT3(lz) == Un(TrT2(0)) \cup Bin(TrT2(0), {Str(<<a>>), Ref("s")}) \cup Bin({Str(
 Mods == {"", "_", "@", "$", "!"}
 TrG(body, m0, m1, m2, cfg) ==
   Merge([r |-> Rule(m0, body), s |-> Rule(m1, SeqE(<<Str(<<a>>), Ref("u")>>)),
-         u |-> Rule(m2, SeqE(<<Str(<<a>>), Opt(Str(<<a>>))>>))], TrivRules(cfg))
+         u |-> Rule(m2, SeqE(<<Str(<<a>>), Opt(Str(<<a>>))>>)),
+         d |-> Rule("", SeqE(<<Ref("u"), Ref("u")>>))],      \* a hidden rule with TWO visible descendants when u is $ or !
+        TrivRules(cfg))
 TrAlpha == {a, sp, lt, gt}
 
 \* every body x every trivia config, plain modifiers
@@ -94,7 +96,7 @@ FamTrivia3(lz) == {TrG(x, "", "", "", cfg) : x \in TrT3(0) \ TrT2(0), cfg \in {"
 ModBodies(lz) == {Ref("s"), SeqE(<<Str(<<a>>), Ref("s")>>), SeqE(<<Ref("s"), Str(<<a>>)>>), Star(Ref("s")), Plus(Str(<<a>>)),
               SeqE(<<Ref("s"), Eoi>>), MaxR(Ref("s"), 2), SeqE(<<Str(<<a>>), Star(Str(<<a>>))>>), AltE(<<Ref("u"), Ref("s")>>),
               SeqE(<<Ref("u"), Ref("WHITESPACE"), Ref("u")>>), SeqE(<<Ref("s"), Ref("u")>>), SeqE(<<Ref("s"), Ref("u"), Ref("s")>>),
-              Star(AltE(<<Ref("s"), Ref("u")>>))}
+              Star(AltE(<<Ref("s"), Ref("u")>>)), Ref("d"), SeqE(<<Ref("d"), Ref("s")>>), Star(Ref("d")), SeqE(<<Ref("u"), Ref("d"), Ref("u")>>)}
 FamMods(lz) == {TrG(x, m0, m1, m2, cfg) : x \in ModBodies(0), m0 \in Mods, m1 \in Mods, m2 \in Mods, cfg \in {"WS", "ws+cm"}}
 
 \* ---- family "stack": C05 ------------------------------------------------------
